@@ -1176,6 +1176,8 @@ def check_pcm_sync(args):
     kind, align, size, b, fs = args["kind"], args["align"], args["size"], bytes.fromhex(args["buf"]), args["frames"]
     src = ch11.TS_CH4 if kind == "rtc" else ch11.TS_IEEE1558
     q = pcm.PCMDataPacket(src, args["sync"], None)
+    if args.get("prior"):                      # the same decoder object used before on frames of another size
+        q.unpack(bytes.fromhex(args["prior"]))
     q.unpack(b)
     if q.minor_frame_size_bytes != size:
         return "PCM size from sync words: frames of %d bytes, decoder derived %r" % (size, q.minor_frame_size_bytes)
@@ -1196,6 +1198,10 @@ def _pcm_sync_cases(ctx):
                     for _ in range(ctx.scale(1, 20)):
                         b, fs = _pcm_sync_packet(rng, kind, align, size, cnt)
                         out.append({"kind": kind, "align": align, "size": size, "sync": SYNC, "buf": b.hex(), "frames": fs})
+                        other = rng.choice([x for x in (4, 6, 8, 10, 16, 64, 128) if x != size])
+                        pb, _ = _pcm_sync_packet(rng, kind, align, other, rng.choice((2, 3)))
+                        out.append({"kind": kind, "align": align, "size": size, "sync": SYNC, "buf": b.hex(), "frames": fs,
+                                    "prior": pb.hex()})
     return out
 
 def corr_C17(ctx):
